@@ -19,6 +19,7 @@ mod bombs;
 #[global_allocator]
 static GLOBAL: bombs::Counting = bombs::Counting;
 mod robotics;
+mod snippet;
 mod yamlgen;
 
 pub struct Args {
@@ -57,6 +58,7 @@ fn main() {
         ("robotics", m) => robotics::run(m, &a),
         ("iofault", m) => iofault::run(m, &a),
         ("reader", m) => reader::run(m, &a),
+        ("snippet", m) => snippet::run(m, &a),
         _ => { eprintln!("unknown area/mode"); 2 }
     };
     std::process::exit(code);
